@@ -942,7 +942,7 @@ def real_route(name):
     (or None) and the set of (object, key) whose value became 12345 — object in {'view', 'top', 'gro'}"""
     from gaddlemaps.components import AtomGro, AtomTop, Atom
     a = Atom(AtomTop("A1", "RA", 1, 0), AtomGro([1, "RA", "A1", 1, 0.0, 0.0, 0.0]))
-    top, gro = a._atom_top, a._atom_gro
+    top, gro = a.atom_top, a.atom_gro
     exc = None
     try:
         setattr(a, name, SENT)
@@ -1001,7 +1001,7 @@ def evaluate_routes(ctx, case):
     from gaddlemaps.components import AtomGro, AtomTop, Atom
     # --- (1) `__setattr__`, name by name: the real method on a scratch view vs the model's table
     a = Atom(AtomTop("A1", "RA", 1, 0), AtomGro([1, "RA", "A1", 1, 0.0, 0.0, 0.0]))
-    names = set(object.__dir__(a)) | set(dir(a._atom_top)) | set(dir(a._atom_gro))
+    names = set(object.__dir__(a)) | set(dir(a.atom_top)) | set(dir(a.atom_gro))
     names |= {"resid", "foo", "tag0", "missing1", "x", "Position", "velocities", "atom_id", "bond", "indexes",
               "top_resids", "gro_resids", "_atom", "residue", "resnames", "names"}
     names = sorted(n for n in names if all(32 < ord(c) < 127 for c in n))
